@@ -304,7 +304,8 @@ example : ∃ σ, Reachable σ ∧ ∃ a1 ∈ σ.acqLog, ∃ a2 ∈ σ.acqLog, a
 /-- the accesses the model's steps were written against.  Reading guide (model step ← tokens):
   * `acquire_env`: lock (`lockCached`) · check (`readEnv`, `call:should_reload` = one notifier
     critical section: `readFlag`, `pollCb`, `callOnCb`) · reset (`call:prepare_and_mark_reload` …
-    `flag=false`; its `try` cannot fail) · readFast (`readEnv`, `call:fast_reload`) · creator …
+    both `readFast` in ONE critical section … `flag=false`; its `try` cannot fail) · decide
+    (`readEnv` + the fast-reload value prepare_and_mark_reload returned: no second read, fix 5725511) · creator …
     (`creator`) · store (`env=new`) | remark (`call:keep_reload_pending` = `flag=true`) + `returnErr`
     · clear (`derefEnv`, `clear`) · handout.
   * `request_reload`: set (`lockHandle`, `flag=true`) · ret (`lockHandle`, `callOnCb`).
@@ -316,7 +317,7 @@ example : ∃ σ, Reachable σ ∧ ∃ a1 ∈ σ.acqLog, ∃ a2 ∈ σ.acqLog, a
 def assumedAccesses : List (String × List String) := [
   ("notifier", ["call:weak"]),
   ("acquire_env", ["lockCached.unwrap", "readEnv", "call:should_reload", "call:prepare_and_mark_reload", "try",
-    "readEnv", "call:fast_reload", "creator", "env=new", "call:keep_reload_pending", "returnErr",
+    "readEnv", "creator", "env=new", "call:keep_reload_pending", "returnErr",
     "derefEnv", "clear", "handout"]),
   ("deref", ["derefEnv"]),
   ("request_reload", ["upgrade", "lockHandle.unwrap", "flag=true", "lockHandle.unwrap", "callOnCb"]),
@@ -328,10 +329,9 @@ def assumedAccesses : List (String × List String) := [
   ("persistent_watch", ["upgrade", "lockHandle.unwrap"]),
   ("is_dead", ["upgrade"]),
   ("handle", ["upgrade"]),
-  ("fast_reload", ["upgrade", "lockHandle.unwrap", "readFast"]),
   ("should_reload", ["upgrade", "lockHandle.unwrap", "readFlag", "pollCb", "callOnCb"]),
   ("with_fs_watcher", ["upgrade", "lockHandle.unwrap", "upgrade", "lockHandle.unwrap", "flag=true", "lockHandle.unwrap", "callOnCb"]),
-  ("prepare_and_mark_reload", ["upgrade", "lockHandle.unwrap", "readFast", "lockHandle.unwrap", "flag=false"]),
+  ("prepare_and_mark_reload", ["upgrade", "lockHandle.unwrap", "readFast", "readFast", "lockHandle.unwrap", "flag=false"]),
   ("keep_reload_pending", ["upgrade", "lockHandle.unwrap", "flag=true"]),
   ("weak", ["upgrade"])]
 
@@ -450,15 +450,22 @@ theorem reload_keeps_watcher {σ σ' : State} {c : Active} (hc : c.pc = .checked
   cases hs
   rcases hk with hk | hk <;> simp [dropWatcher, hk]
 
-/-- … and a reload that dropped it is about to run the creator (which can re-register), unless
-    fast reload is switched on by ANOTHER thread between the drop and the create/clear decision -/
-theorem dropped_then_creator_runs {σ σ' : State} {c : Active} (hc : c.pc = .reset)
-    (hf : σ.fast = false) (hs : stepActive σ c = some σ') :
+/-- … and a reload that dropped it goes on to run the creator (which can re-register): the
+    create-or-clear decision uses the value of fast reload that the drop decision used
+    (`prepare_and_mark_reload` returns it, fix 5725511), whatever other threads do in between -/
+theorem dropped_then_creator_runs {σ σ' : State} {c : Active} (h : Reachable σ) (hcur : σ.cur = some c)
+    (hc : c.pc = .reset) (hd : c.droppedW = true) (hs : stepActive σ c = some σ') :
     ∃ c', σ'.cur = some c' ∧ c'.pc = .toCreate := by
+  have hf := ((watchInv_of_reachable h).hold c hcur).1 hd
   unfold stepActive at hs
   simp [hc, hf] at hs
   cases hs
   exact ⟨_, rfl, rfl⟩
+
+/-- **no fast-reload clear is ever done by an acquire that threw the watcher away** — in every
+    reachable state, under every interleaving with `set_fast_reload` calls of other threads -/
+theorem no_clear_after_drop {σ : State} (h : Reachable σ) : σ.clearsAfterDrop = 0 :=
+  (watchInv_of_reachable h).nocad
 
 /-- a creator that calls `watch_path` re-registers -/
 theorem creator_reregisters {σ σ' : State} {c : Active} {rest : List COp}
@@ -483,14 +490,15 @@ example : ∃ σ, Reachable σ ∧ σ.registered = true ∧ σ.watching = false 
       [0, 0, 0, 0, 0, 0, 0, 0, 1, 2, 2, 3, 3, 3, 3, 3, 3, 3, 3],
    reachable_run (.init _ (by decide)) _, by decide⟩
 
-/-- **a race the current code has** (recorded as a known finding, see lib/props/c20.py): the drop
-    decision and the create-or-clear decision read `fast_reload` in two different critical sections.
-    If another thread switches fast reload ON between them, the watcher was dropped (fast was off)
-    but the creator is not run (fast is on): the paths stay unwatched although fast reload is on. -/
-example : ∃ σ, Reachable σ ∧ σ.registered = true ∧ σ.watching = false ∧ σ.fast = true ∧
-    σ.cur = none ∧ σ.creates = 1 ∧ σ.clears = 1 :=
-  ⟨run (init [.acqIdle { script := [.watch] }, .reqIdle, .acqIdle {}, .fastIdle true])
-      [0, 0, 0, 0, 0, 0, 0, 0, 0, 1, 1, 2, 2, 2, 3, 2, 2, 2, 2],
+/-- the schedule of the race the pinned code had (drop decision and create-or-clear decision read
+    `fast_reload` in two critical sections; another thread switches fast reload ON in between): with
+    the decision taken once (fix 5725511) the acquire that dropped the watcher runs the creator, which
+    re-registers — the paths are watched again.  (Before the fix this schedule ended with
+    `watching = false ∧ fast = true ∧ creates = 1 ∧ clears = 1`.) -/
+example : ∃ σ, Reachable σ ∧ σ.registered = true ∧ σ.watching = true ∧ σ.fast = true ∧
+    σ.cur = none ∧ σ.creates = 2 ∧ σ.clears = 0 :=
+  ⟨run (init [.acqIdle { script := [.watch] }, .reqIdle, .acqIdle { script := [.watch] }, .fastIdle true])
+      [0, 0, 0, 0, 0, 0, 0, 0, 0, 1, 1, 2, 2, 2, 3, 2, 2, 2, 2, 2, 2, 2],
    reachable_run (.init _ (by decide)) _, by decide⟩
 
 theorem C20_holds : C20_full := by
